@@ -629,51 +629,9 @@ func c05Buffers(c *an.Ctx) {
 func c05CachePool(c *an.Ctx) {
 	m := buildEvalModel(c, "R5")
 	if m != nil {
-		// a clearing loop over tx.transformationCache that every path to the rule loop passes
-		var del ssa.Instruction
-		an.Instrs(m.fn, func(in ssa.Instruction) {
-			if an.IsBuiltinCall(in, "delete") && an.Expr(an.CallOf(in).Args[0]) == "tx.transformationCache" && !m.loop.Blocks[in.Block()] {
-				del = in
-			}
-		})
-		ok := false
-		why := "Eval does not delete the entries of tx.transformationCache before the rule loop"
-		if del != nil {
-			l := an.InnermostLoop(del.Block())
-			if l != nil && strings.Contains(an.Expr(an.CallOf(del).Args[1]), "next(range(tx.transformationCache))") {
-				w := an.FindPath(an.PathQuery{Fn: m.fn, Stop: func(in ssa.Instruction) bool { return in.Block() == l.Header },
-					Target: func(in ssa.Instruction) bool { return in == m.call }})
-				var body *ssa.BasicBlock
-				for _, s := range l.Header.Succs {
-					if l.Blocks[s] {
-						body = s
-					}
-				}
-				w2 := an.FindPath(an.PathQuery{Fn: m.fn, StartBlock: body, Stop: func(x ssa.Instruction) bool { return x == del },
-					Target: func(x ssa.Instruction) bool { return x == l.Header.Instrs[0] }})
-				exits := 0
-				for _, e := range l.ExitEdges() {
-					if e[0].(*ssa.BasicBlock) != l.Header {
-						exits++
-					}
-				}
-				ok = w == nil && w2 == nil && exits == 0
-				if !ok {
-					why = "the clearing loop can be bypassed or skips entries"
-				}
-			}
-		}
-		if !ok {
-			// alternative: clear(tx.transformationCache) dominating the loop
-			an.Instrs(m.fn, func(in ssa.Instruction) {
-				if an.IsBuiltinCall(in, "clear") && an.Expr(an.CallOf(in).Args[0]) == "tx.transformationCache" && in.Block().Dominates(m.call.Block()) && !m.loop.Blocks[in.Block()] {
-					ok = true
-				}
-			})
-		}
+		ok, why, same, arg := evalClearsCache(m)
 		c.Check(ok, "R5", "Eval clears the transformation cache before the rule loop", m.fn.Pos(), "every entry is deleted before the first rule runs", why+": results computed in an earlier phase or transaction could be reused")
-		arg := an.Expr(an.CallOf(m.call).Args[3])
-		c.Check(arg == "tx.transformationCache", "R5", "Eval hands the cleared cache to r.Evaluate", m.call.Pos(), "same map", "r.Evaluate receives "+arg+", not the map that was cleared")
+		c.Check(same, "R5", "Eval hands the cleared cache to r.Evaluate", m.call.Pos(), "same map", "r.Evaluate receives "+arg+", not the map that was cleared")
 	}
 	// pool discipline
 	closeFn := c.Fn("R5", "internal/corazawaf.(*Transaction).Close")
